@@ -384,7 +384,9 @@ func (s *sched) choose(n int, free bool, kind byte) int {
 		}
 	}
 	if n > 250 {
-		panic("vsched: too many alternatives")
+		// a limit of the tool (choices are stored in a byte), never a verdict on the code
+		s.fail("internal", "internal:too-many-alternatives", fmt.Sprintf("%d alternatives at one choice point (at most 250 are supported): the harness must keep fewer threads runnable at a time", n))
+		n = 250
 	}
 	s.res.Points = append(s.res.Points, Point{N: n, Free: free, Kind: kind})
 	s.res.Choices = append(s.res.Choices, uint8(c))
